@@ -101,7 +101,11 @@ func runSpec(s caseSpec) (fs []finding) {
 	case "repair":
 		dir := newDir()
 		defer os.RemoveAll(dir)
-		checkRepair(lc, C, &ci, dir, func(oracle, what string) { add(ci.class, oracle, "repair", what) })
+		mode := s.Mode
+		if mode == "" {
+			mode = "fresh"
+		}
+		checkRepair(lc, C, &ci, mode, dir, func(oracle, what string) { add(ci.class, oracle, "repair", what) })
 	case "group-read":
 		// re-runs every corruption of this (log, rotation pattern) and keeps the findings of the stored one
 		dir := newDir()
@@ -135,7 +139,7 @@ func main() {
 			cleanupTemp()
 			os.Exit(2)
 		}
-		fmt.Printf("replaying phase=%s log=%s corruption=%v limit=%d pattern=%v\n", s.Phase, tokensName(s.Tokens), s.Corr, s.Limit, s.Pattern)
+		fmt.Printf("replaying phase=%s log=%s corruption=%v limit=%d pattern=%v repair-mode=%q\n", s.Phase, tokensName(s.Tokens), s.Corr, s.Limit, s.Pattern, s.Mode)
 		fs := runSpec(s)
 		if len(fs) == 0 {
 			fmt.Println("observed: every oracle holds for this case")
@@ -204,7 +208,7 @@ func main() {
 	r.Set("rule", fmt.Sprintf("every log of 1..%d records over a %d-token alphabet (EndHeight{0,1,maxint64}, timeoutInfo{zero,max}, EventDataRoundState{zero,max}, "+
 		"msgInfo{Proposal,BlockPart,Vote}x{minimal valid,max fields}) plus one log with a 64 KiB block part, encoded by the real WALEncoder; per log EVERY truncation offset, EVERY single-bit flip, "+
 		"each record's length field := {0,1,len-1,len+1,max,max+1,2^32-1}, crc field := {0,crc(empty),ffffffff,IEEE crc}, 8 garbage suffixes; each read back by the real WALDecoder "+
-		"(strict until the first error, then skipping corruption errors to end-of-log); logs of <=%d records additionally through repairWalFile (all corruptions) and through a real autofile.Group "+
+		"(strict until the first error, then skipping corruption errors to end-of-log); logs of <=%d records additionally through repairWalFile (all corruptions, each three ways: into a fresh file; IN PLACE exactly as ConsensusState.OnStart does — corrupted log is <dir>/wal, kos.CopyFile to <dir>/wal.CORRUPTED, repair back over the existing longer <dir>/wal; over a pre-existing destination with unrelated longer content — the result must be byte-exactly the longest valid prefix and read back cleanly to end-of-log) and through a real autofile.Group "+
 		"laid out with every rotation pattern class (truncations, one flip per byte, all field/garbage cases) with SearchForEndHeight for every written height and one unwritten; "+
 		"every log is also written through a real BaseWAL with the group's head-size check run after each write for every limit at/around each record boundary, read back, searched for "+
 		"every written and 6 unwritten heights with both search options, restarted and checked again. evaluations = corrupted logs decoded; "+
